@@ -376,8 +376,8 @@ func runCheck(prop, tier string) int {
 		}
 		// minimise (bounded), then confirm by replaying the minimised file in a fresh process
 		minPath := path + ".min"
-		if reported < 4 && !cfg.Race && cfg.Engine != "httpsim" {
-			out, err := runTimeout(5*time.Minute, b.scratch, env, b.worker, "-minimise", path, "-minout", minPath, "-minbudget", "250", "-scratch", filepath.Join(b.scratch, "min"))
+		if reported < 4 && !cfg.Race && cfg.Engine != "httpsim" && !strings.HasPrefix(ol.Viol.Oracle, "hang") {
+			out, err := runTimeout(3*time.Minute, b.scratch, env, b.worker, "-minimise", path, "-minout", minPath, "-minbudget", "250", "-scratch", filepath.Join(b.scratch, "min"))
 			if err == nil {
 				os.Rename(minPath, path)
 			} else if strings.Contains(out, "did not reproduce") {
